@@ -63,7 +63,7 @@ def parseOp (toks : List String) (now : Nat) : Option Node.Op :=
       | [f, es] => do pure (some (f == "1", ← parseEntries es))
       | _ => none)
     pure (.msg (← p.toNat?) h d b wl)
-  | ["sending", p, st] => do pure (.sending (← p.toNat?) (← parseSending st now))
+  | ["sending", p, src, st] => do pure (.sending (← p.toNat?) (← src.toNat?) (← parseSending st now))
   | ["newblocks", b] => do pure (.newBlocks (← parsePairs b))
   | ["complete", s, r] => do pure (.complete (← s.toNat?) (← parseRes r))
   | ["tick", ms] => do pure (.tick (← ms.toNat?))
